@@ -22,6 +22,18 @@ def M(id_, file, old, new, props):
 
 
 MUTANTS = [
+    M('mixture-transform-writes-argument', B, "        points_t = np.copy(points)\n",
+      "        points_t = np.asarray(points, dtype=float)\n", 'C13 C07 C11'),
+    M('split-volume-test-inverted', U, "        if (logsumexp([new_bounds[0].log_v, new_bounds[1].log_v]) >\n                self.bounds[index].log_v):",
+      "        if (logsumexp([new_bounds[0].log_v, new_bounds[1].log_v]) <\n"
+      "                self.bounds[index].log_v):", 'C13'),
+    M('split-volume-test-max-child', U, "        if (logsumexp([new_bounds[0].log_v, new_bounds[1].log_v]) >\n                self.bounds[index].log_v):",
+      "        if (max(new_bounds[0].log_v, new_bounds[1].log_v) >\n"
+      "                self.bounds[index].log_v):", 'C13'),
+    M('top-up-one-short', U, "[:self.n_points_min]] = label", "[:self.n_points_min - 1]] = label",
+      'C13'),
+    M('top-up-threshold-one-short', U, "np.bincount(labels) >= self.n_points_min):",
+      "np.bincount(labels) >= self.n_points_min - 1):", 'C13'),
     M('kwargs-default-mutated', NN,
       "        default_neural_network_kwargs.update(neural_network_kwargs)\n"
       "        neural_network_kwargs = default_neural_network_kwargs\n",
@@ -997,6 +1009,13 @@ BENIGN += [
          new=None, fn=_shared_key_list, props=ALL.split()),
     dict(id='bulk-deletion-of-statistics', file=S, old="                        for shell in np.flatnonzero(self.shell_n == 0)[::-1]:\n                            self.bounds.pop(shell)\n                            self.points.pop(shell)\n                            self.log_l.pop(shell)\n                            if self.blobs is not None:\n                                self.blobs.pop(shell)\n                            for key in ['shell_n', 'shell_n_sample',\n                                        'shell_n_eff', 'shell_log_l_min',\n                                        'shell_log_l', 'shell_log_v']:\n                                setattr(self, key, np.delete(\n                                    getattr(self, key), shell))\n",
          new="                        empty = np.flatnonzero(self.shell_n == 0)\n                        for shell in empty[::-1]:\n                            self.bounds.pop(shell)\n                            self.points.pop(shell)\n                            self.log_l.pop(shell)\n                            if self.blobs is not None:\n                                self.blobs.pop(shell)\n                        for key in ['shell_n', 'shell_n_sample',\n                                    'shell_n_eff', 'shell_log_l_min',\n                                    'shell_log_l', 'shell_log_v']:\n                            setattr(self, key, np.delete(\n                                getattr(self, key), empty))\n", props=ALL.split()),
+    dict(id='split-volume-test-mirrored', file=U, old="        if (logsumexp([new_bounds[0].log_v, new_bounds[1].log_v]) >\n                self.bounds[index].log_v):",
+         new="        if (self.bounds[index].log_v < logsumexp([b.log_v for b in new_bounds])):",
+         props=ALL.split()),
+    dict(id='top-up-threshold-strict-form', file=U, old="np.bincount(labels) >= self.n_points_min):",
+         new="np.bincount(labels) > self.n_points_min - 1):", props=ALL.split()),
+    dict(id='mixture-transform-copy-by-array', file=B, old="        points_t = np.copy(points)\n",
+         new="        points_t = np.array(points, dtype=float)\n", props=ALL.split()),
     dict(id='with-statement', file=S, old="fstream = h5py.File(filepath_tmp, 'w')", new=None,
          fn=_with_statement, props=ALL.split()),
     dict(id='guard-clause-trim', file=U, old="            return False\n\n    def contains",
